@@ -7,6 +7,10 @@ ASSUMPTIONS = [
     "static dependency sets: directory patterns (finding F11) are exercised by the C18 check",
     "sha256 collision freedom (contents are compared as integers in the model)",
     "persist-marked tasks are outside the claim and are not generated here",
+    "Lean side (Properties/C02.lean): WF P (unique task ids, a task lists a product once, module files are not products) and BodiesTotal P "
+    "(a body that returns has written all its products) are hypotheses; the project is static along a History (edits = arbitrary changes of "
+    "file contents incl. module files and products, loss of the state table); add/remove/rewire-task edits are covered by the differential "
+    "campaign only",
 ]
 EDITS = ["write", "write", "revert", "rewrite_same", "touch", "delete_input", "bump", "revert_module", "tamper", "delete_product",
          "rewire", "add_task", "remove_task"]
